@@ -1779,6 +1779,19 @@ class AbstractSparse:
             return self._wrap(self.dense * P(o))
         return NotImplemented
 
+    def __imul__(self, o):
+        # scipy.sparse: multiplication by a scalar in place scales the stored data of *this* matrix (every alias sees it)
+        if isinstance(o, (int, float, Fraction, Poly)) or (isinstance(o, np.ndarray) and o.ndim == 0):
+            self.dense[...] = self.dense * P(o.item() if isinstance(o, np.ndarray) else o)
+            return self
+        return NotImplemented
+
+    def __itruediv__(self, o):
+        if isinstance(o, (int, float, Fraction, Poly)) or (isinstance(o, np.ndarray) and o.ndim == 0):
+            self.dense[...] = self.dense / P(o.item() if isinstance(o, np.ndarray) else o)
+            return self
+        return NotImplemented
+
     def __truediv__(self, o):
         return self._wrap(self.dense / P(o))
 
@@ -2275,12 +2288,15 @@ class ThreadSummary:
 
 
 def deep_copy(x, memo=None):
-    from .interp import Instance
+    from .interp import Instance, BoundMethod
 
     if memo is None:
         memo = {}
     if id(x) in memo:
         return memo[id(x)]
+    if isinstance(x, BoundMethod):
+        # copy.deepcopy re-binds a bound method to the copy of its object (an instance that stores `self.alias = self.method`)
+        return BoundMethod(deep_copy(x.obj, memo), x.fn)
     if isinstance(x, np.ndarray):
         r = x.copy()
     elif isinstance(x, Instance):
